@@ -349,6 +349,12 @@ func confineGenKeyring(r *Rng) confineCase {
 }
 
 func (confineSuite) Gen(r *Rng, i int, tier string) any {
+	if i < len(confineCmdKinds) {
+		return confineCase{Kind: "cmd", Hdr: confineCmdKinds[i]}
+	}
+	if r.Chance(1) {
+		return confineGenCmd(r)
+	}
 	switch k := r.Intn(100); {
 	case k < 14:
 		return confineGenLex(r)
@@ -816,6 +822,8 @@ func (confineSuite) Run(raw json.RawMessage) []Step {
 		return confineRunTransport(c)
 	case "keyring":
 		return confineRunKeyring(c)
+	case "cmd":
+		return confineRunCmd(c)
 	}
 	panic("confine: unknown kind " + c.Kind)
 }
